@@ -23,4 +23,7 @@ def build(src, tier):
         ts += [Q.t_defer(host), Q.t_recall(host), Q.t_post(host, 'fifo', ('C15',)), Q.t_post(host, 'lifo', ('C15',)),
                Q.t_next_rtc(host)]
     ts.append(t_chart_init('HsmWithQueues'))
-    return [(w, ts)]
+    # starting the chart leaves the deferred events where they are
+    from . import instr_targets as I
+    return [(w, ts), (I.instr_world(src, tier), [I.t_start_body('HsmWithQueues')]),
+            (I.instr_world(src, tier), [I.t_start_body('ActiveObject')])]
